@@ -84,6 +84,11 @@ def step (st : Option GSt) (w : List String) : Option GSt × String :=
       | some man, some d1, some d2 =>
         (some { g with conf := ⟨(cstrOf man).take 70, (cstrOf d1).take 70, (cstrOf d2).take 70⟩ }, "ok")
       | _, _, _ => (st, "bad-op")
+    | ["confp", man, d1, d2] =>     -- the same strings given as PROGMEM: the model state is the same (copied at the first write)
+      match hexBytes? man, hexBytes? d1, hexBytes? d2 with
+      | some man, some d1, some d2 =>
+        (some { g with conf := ⟨(cstrOf man).take 70, (cstrOf d1).take 70, (cstrOf d2).take 70⟩ }, "ok")
+      | _, _, _ => (st, "bad-op")
     | "txlist" :: i :: pgns =>
       match nat? i, natList? pgns with
       | some i, some ps =>
